@@ -76,13 +76,15 @@ enum Step {
     Cont { p: usize },
     Exit { p: usize, code: i32 },
     Kill { p: usize, sig: i32 },
+    /// the process leaves its job's process group (setpgid(0,0) / setsid): it stays a child of the shell
+    Leave { p: usize },
     Report { p: usize },
     Deliver,
 }
 
 impl Step {
     fn is_world(&self) -> bool {
-        matches!(self, Step::Stop { .. } | Step::Cont { .. } | Step::Exit { .. } | Step::Kill { .. })
+        matches!(self, Step::Stop { .. } | Step::Cont { .. } | Step::Exit { .. } | Step::Kill { .. } | Step::Leave { .. })
     }
     fn to_json(&self) -> Value {
         match self {
@@ -97,6 +99,7 @@ impl Step {
             Step::Cont { p } => json!({"k": "cont", "p": p}),
             Step::Exit { p, code } => json!({"k": "exit", "p": p, "code": code}),
             Step::Kill { p, sig } => json!({"k": "kill", "p": p, "sig": sig}),
+            Step::Leave { p } => json!({"k": "leave", "p": p}),
             Step::Report { p } => json!({"k": "report", "p": p}),
             Step::Deliver => json!({"k": "deliver"}),
         }
@@ -125,6 +128,7 @@ impl Step {
             "cont" => Step::Cont { p: u("p") },
             "exit" => Step::Exit { p: u("p"), code: i("code") },
             "kill" => Step::Kill { p: u("p"), sig: i("sig") },
+            "leave" => Step::Leave { p: u("p") },
             "report" => Step::Report { p: u("p") },
             "deliver" => Step::Deliver,
             _ => return None,
@@ -162,6 +166,8 @@ struct Proc {
     pgid: i32,
     state: PState,
     pending: Pending,
+    /// left its job's process group (never stopped afterwards: the shell's killpg could not continue it)
+    left: bool,
 }
 
 impl Proc {
@@ -199,6 +205,7 @@ struct GenCfg {
     w_cont: u32,
     w_exit: u32,
     w_kill: u32,
+    w_leave: u32,
     w_fgbg: u32,
     w_jobs: u32,
     w_launch_bg: u32,
@@ -226,6 +233,7 @@ struct World {
     source: Source,
     trace: Vec<Step>,
     fg: Option<FgWait>,
+    wait_group: Option<i32>,
     violation: Option<Violation>,
     hash: u64,
     log: Option<Vec<String>>,
@@ -253,6 +261,7 @@ impl World {
             source,
             trace: Vec::new(),
             fg: None,
+            wait_group: None,
             violation: None,
             hash: 0xcbf29ce484222325,
             log: if keep_log { Some(Vec::new()) } else { None },
@@ -312,6 +321,7 @@ impl World {
             Step::Cont { p } => (*p, 1),
             Step::Exit { p, .. } => (*p, 2),
             Step::Kill { p, .. } => (*p, 3),
+            Step::Leave { p } => (*p, 4),
             _ => return false,
         };
         if p >= self.procs.len() {
@@ -321,7 +331,7 @@ impl World {
         let pr = &mut self.procs[p];
         match (what, st) {
             (0, Step::Stop { sig, .. }) => {
-                if pr.state != PState::Run {
+                if pr.state != PState::Run || pr.left {
                     return false;
                 }
                 if pr.pending == Pending::Cont {
@@ -364,9 +374,24 @@ impl World {
                 pr.pending = Pending::None;
                 self.ev(format!("kill {} {}", name, sig));
             }
+            (4, _) => {
+                if pr.state != PState::Run || pr.left || pr.pid == pr.pgid || pr.pending != Pending::None {
+                    return false;
+                }
+                pr.pgid = pr.pid;
+                pr.left = true;
+                self.ev(format!("leave-group {}", name));
+                self.probe("member_left_its_group");
+            }
             _ => return false,
         }
         true
+    }
+
+    /// something the current wait can return (a wait for one process group only sees that group)
+    fn have_reportable(&self) -> bool {
+        let g = self.wait_group;
+        self.procs.iter().any(|p| p.reportable() && g.map_or(true, |g| p.pgid == g))
     }
 
     fn reportable(&self) -> Vec<usize> {
@@ -411,7 +436,12 @@ impl World {
         let st = self.procs[p].state;
         let mut opts: Vec<(u32, u8)> = Vec::new();
         if st == PState::Run {
-            opts.push((cfg.w_stop, 0));
+            if !self.procs[p].left {
+                opts.push((cfg.w_stop, 0));
+                if self.procs[p].pid != self.procs[p].pgid && self.procs[p].pending == Pending::None {
+                    opts.push((cfg.w_leave, 5));
+                }
+            }
             opts.push((cfg.w_exit, 2));
             opts.push((cfg.w_kill, 3));
         } else {
@@ -436,6 +466,7 @@ impl World {
             1 => Step::Cont { p },
             2 => Step::Exit { p, code: [0, 0, 1, 2, 127, 255, 7][rng.below(7)] },
             3 => Step::Kill { p, sig: [libc::SIGKILL, libc::SIGTERM, libc::SIGINT, libc::SIGQUIT, libc::SIGHUP][rng.below(5)] },
+            5 => Step::Leave { p },
             _ => Step::Kill { p, sig: libc::SIGKILL },
         };
         *events_left -= 1;
@@ -452,7 +483,7 @@ impl World {
                 self.violate("harness_loop", "advance_world".to_string());
                 return;
             }
-            let have = !self.reportable().is_empty();
+            let have = self.have_reportable();
             let is_gen = matches!(self.source, Source::Gen { .. });
             if is_gen {
                 if have {
@@ -609,6 +640,7 @@ impl cv::SimKernel for Kernel {
             return Err(nix::Error::ECHILD);
         }
         let nohang = flags & WNOHANG != 0;
+        w.wait_group = group;
         if !nohang {
             if let Some(f) = w.fg.as_mut() {
                 f.waited = true;
@@ -636,8 +668,7 @@ impl cv::SimKernel for Kernel {
                 let i = w.choose_report(&r);
                 let name = w.pname(w.procs[i].pid);
                 let pid_raw = w.procs[i].pid;
-                let fg_gid = w.fg.as_ref().map(|f| f.gid);
-                let is_fg = fg_gid == Some(w.procs[i].pgid) && !nohang;
+                let is_fg = w.fg.as_ref().map_or(false, |f| f.pids.contains(&pid_raw)) && !nohang;
                 if !nohang && !is_fg {
                     w.probe("bg_event_consumed_by_fg_wait");
                 }
@@ -799,7 +830,8 @@ fn check_structure(w: &mut World, sh: &cv::Shell) {
             }
             match w.idx_of_pid(*pid) {
                 Some(i) => {
-                    if w.procs[i].pgid != j.gid {
+                    let home = w.jobs.get(w.procs[i].job).map(|m| m.gid);
+                    if home != Some(j.gid) {
                         problems.push(format!("{} listed in a foreign job", w.pname(*pid)));
                     }
                 }
@@ -910,6 +942,7 @@ fn draw_cfg(rng: &mut Rng, max_events: usize) -> GenCfg {
         prompt_event_pct: [10, 30, 50, 70][rng.below(4)],
         batch_pct: [0, 20, 40, 70][rng.below(4)],
         reuse_pids: rng.chance(25),
+        w_leave: onoff(rng, 25, 1),
     }
 }
 
@@ -1201,7 +1234,7 @@ fn run_one(source: Source, handler_mode: bool, keep_log: bool) -> RunResult {
                     let mut idxs = Vec::new();
                     for p in pids {
                         idxs.push(w.procs.len());
-                        w.procs.push(Proc { pid: *p, job: ji, pgid: gid, state: PState::Run, pending: Pending::None });
+                        w.procs.push(Proc { pid: *p, job: ji, pgid: gid, state: PState::Run, pending: Pending::None, left: false });
                     }
                     w.jobs.push(MJob { gid, procs: idxs });
                     w.trace.push(st.clone());
@@ -1641,7 +1674,7 @@ fn kernel_cmd() -> i32 {
             let mut idxs = Vec::new();
             for i in 0..n {
                 idxs.push(i);
-                w.procs.push(Proc { pid: 1000 + i as i32, job: 0, pgid: 1000, state: PState::Run, pending: Pending::None });
+                w.procs.push(Proc { pid: 1000 + i as i32, job: 0, pgid: 1000, state: PState::Run, pending: Pending::None, left: false });
             }
             w.jobs.push(MJob { gid: 1000, procs: idxs });
         }
